@@ -230,6 +230,30 @@ def main(argv=None):
             if any(sig_matches(k["signature"], v["sig"]) for v in rec.get("violations", [])):
                 known_hit[k["id"]] = k
 
+    # ---- repaired defects: a `fixed` entry suppresses nothing; where its witness was kept it is replayed on every run, and
+    # a violation it shows is classified like any other (so a repaired defect that returns is reported)
+    regression = {"replayed": 0, "failing": 0}
+    for k in load_known():
+        if k["property"] != pid or k["status"] != "fixed" or not k.get("witness_kept_for_regression"):
+            continue
+        wpath = os.path.join(VERIF, k["witness_kept_for_regression"])
+        if not os.path.exists(wpath):
+            continue
+        with open(wpath) as f:
+            rep = json.load(f)
+        try:
+            rec = run_in_fork(_replay_in_child, (pid, rep), timeout=600)
+        except ForkError as e:
+            harness_errors.append({"seed": rep.get("seed"), "harness_error": f"regression witness {k['id']}: {e}"})
+            continue
+        regression["replayed"] += 1
+        if rec.get("violations"):
+            regression["failing"] += 1
+            rec.setdefault("seed", rep.get("seed"))
+            for v in rec["violations"]:
+                v.setdefault("replay", {kk: vv for kk, vv in rep.items() if kk not in ("violation",)})
+            viol_records.append(rec)
+
     # ---- classify violations found by the exploration
     unlisted = []
     for rec in viol_records:
@@ -329,7 +353,8 @@ def main(argv=None):
     wall = time.monotonic() - t_start
     print("phases:", phases, flush=True)
     if not a.no_evidence:
-        ev = build_evidence(mod, pid, a.tier, base, records, wall, det, known_hit, reported, harness_errors)
+        ev = build_evidence(mod, pid, a.tier, base, records, wall, det, known_hit, reported, harness_errors,
+                            regression=regression)
         os.makedirs(a.evidence_dir, exist_ok=True)
         with open(os.path.join(a.evidence_dir, f"{pid}.json"), "w") as f:
             json.dump(ev, f, indent=1, sort_keys=True)
@@ -360,7 +385,7 @@ def _minimise_in_child(pid, rep):
     return load_prop(pid).minimise(rep)
 
 
-def build_evidence(mod, pid, tier, base, records, wall, det, known_hit, reported, harness_errors):
+def build_evidence(mod, pid, tier, base, records, wall, det, known_hit, reported, harness_errors, regression=None):
     good = [r for r in records if "harness_error" not in r]
     cov = mod.summarise(good)
     nontrivial = {r["digest"] for r in good if r.get("nontrivial") and r.get("digest")}
@@ -375,6 +400,7 @@ def build_evidence(mod, pid, tier, base, records, wall, det, known_hit, reported
     cov["all_run_digests_sha"] = sha([[r["idx"], r.get("digest")] for r in good])
     cov["known_findings_reproduced"] = sorted(known_hit)
     cov["violation_replays"] = reported
+    cov["repaired_defect_witnesses"] = regression or {"replayed": 0, "failing": 0}
     cov["harness_errors"] = len(harness_errors)
     cov["runs_retried_without_opcode_after_interpreter_crash"] = sum(1 for r in good if r.get("retried_after_interpreter_crash"))
     cov["components"] = {
